@@ -360,4 +360,24 @@ theorem toRadix_canonical (b n : Nat) (hb2 : 2 ≤ b) (hb64 : b ≤ 64) :
       refine ⟨d, ?_, rfl⟩
       apply radixDigits_lt b (by omega) (n + 1) n
       exact List.mem_reverse.mp (List.mem_of_mem_drop hd)
+theorem fromRadixLSF_reject (b : Nat) (s : List Char) (h : ∃ c ∈ s, radixVal c = none) :
+    ∀ pow ans, fromRadixLSF b s pow ans = none := by
+  induction s with
+  | nil => simp at h
+  | cons c cs ih =>
+    intro pow ans
+    obtain ⟨x, hx, hn⟩ := h
+    simp only [List.mem_cons] at hx
+    unfold fromRadixLSF
+    rcases hx with rfl | hx
+    · simp [hn]
+    · cases hv : radixVal c with
+      | none => rfl
+      | some d => exact ih ⟨x, hx, hn⟩ _ _
+
+theorem fromRadix_reject (b : Nat) (s : List Char) (h : ∃ c ∈ s, radixVal c = none) : fromRadix b s = none := by
+  unfold fromRadix
+  apply fromRadixLSF_reject
+  obtain ⟨c, hc, hn⟩ := h
+  exact ⟨c, List.mem_reverse.mpr hc, hn⟩
 end Proofs.C14
